@@ -1,2 +1,68 @@
-(* placeholder until SlabProofs.v is written *)
-From FV Require Import Slab.SlabModel.
+(* C01 -- slab pool: live blocks are valid, big enough, aligned and pairwise disjoint.
+   Model: coq/Slab/SlabModel.v (tied to include/frg/slab.hpp by comp/slab: exact return addresses, get_size, the
+   policy call log, numUsedPages, bucket/slab structure dumps on generated scripts over 12 template configurations). *)
+From Coq Require Import List NArith Bool.
+From FV Require Import Slab.SlabModel Slab.SlabArith Slab.SlabFail Slab.SlabC01.
+Import ListNotations.
+Local Open Scope N_scope.
+
+(* Every history, every admissible configuration, every policy answer (DESIGN Appendix A).
+   [Forall ... trace] says that no call of the history ends in UB or in an FRG_ASSERT.
+   [history_short]: fewer than 2^32 calls -- slab_frame::num_reserved is an unsigned int that the code increments on
+   every allocation from the slab and never decrements; free asserts it to be non-zero (see NOTES.md). *)
+Theorem C01_blocks_valid_disjoint_aligned :
+  forall (c : cfg) (ops : list op),
+    cfg_ok c = true -> policy_ok c ops -> api_ok c ops -> history_short ops ->
+    forall pre, prefix pre ops ->
+    let s := run c pre in
+    Forall (fun x => is_stop (fst x) = false) (trace_from c (init c) pre)
+    /\ forall p n, live_req s p = Some n ->
+       N.max n 1 <= size_of c s p
+       /\ inside_mapped s p (size_of c s p)
+       /\ (forall q m, live_req s q = Some m -> q <> p -> disjoint p (size_of c s p) q (size_of c s q))
+       /\ disjoint_from_bookkeeping c s p (size_of c s p)
+       /\ N.divide (align_of c (N.max n 1)) p
+       /\ size_of c s p = size_when_allocated s p.
+Proof. exact C01_main. Qed.
+Print Assumptions C01_blocks_valid_disjoint_aligned.
+
+(* size_to_bucket picks, for EVERY request 1 <= n <= max_bucket_size and EVERY number of buckets (not only the 13
+   sizes the static_assert samples), the smallest class that fits, and that class exists. *)
+Theorem C01_size_class_exact :
+  forall nb n, 1 <= nb -> 1 <= n -> n <= b2s (nb - 1) ->
+    n <= b2s (s2b n) /\ (s2b n = 0 \/ b2s (s2b n - 1) < n) /\ s2b n < nb.
+Proof.
+  intros nb n Hnb Hn Hmax. split; [apply s2b_fits; assumption|].
+  split; [apply s2b_least; assumption|apply s2b_bound; assumption].
+Qed.
+Print Assumptions C01_size_class_exact.
+
+(* a request succeeds whenever the policy's map does *)
+Theorem C01_allocate_succeeds :
+  forall c ops n r,
+    cfg_ok c = true -> policy_ok c (ops ++ [Alloc n (MapRet r)]) -> api_ok c (ops ++ [Alloc n (MapRet r)]) ->
+    history_short (ops ++ [Alloc n (MapRet r)]) -> r <> 0 ->
+    exists p, res_of (step c (run c ops) (Alloc n (MapRet r))) = RPtr p /\ p <> 0.
+Proof. exact alloc_succeeds. Qed.
+Print Assumptions C01_allocate_succeeds.
+
+(* ---- non-vacuity: a small configuration (slab = superblock = one page, classes 8..64), unaligned map, a history
+   that fills a slab of class 64 (62 objects), spills into a second one, drains, reallocs across classes and into
+   the large path, with a failing map in between ---- *)
+Definition c01_cfg : cfg := mkCfg 4096 4096 4096 4 false true 40 104.
+Fixpoint fill (k : nat) (r : N) : list op :=
+  match k with O => [] | S k' => Alloc 64 (MapRet r) :: fill k' r end.
+Definition demo_ops : list op :=
+  fill 62 8192 ++ [Alloc 33 (MapRet 20480); Alloc 64 MapFail;
+                   Free 12224; Free 12160; Alloc 50 MapFail;
+                   Realloc 12096 3 (MapRet 40960); Realloc 12032 5000 (MapRet 61440);
+                   Dealloc 11968 60; GetSize 11904; Write 11904 0 64 7; Realloc 11904 0 MapFail; Free 0].
+Example C01_hyps_satisfiable :
+  cfg_ok c01_cfg = true /\ policy_ok c01_cfg demo_ops /\ api_ok c01_cfg demo_ops /\ history_short demo_ops
+  /\ length (live (run c01_cfg demo_ops)) = 61%nat /\ length (slabs (run c01_cfg demo_ops)) = 2%nat
+  /\ length (larges (run c01_cfg demo_ops)) = 1%nat.
+Proof. unfold policy_ok, api_ok, history_short. vm_compute. repeat split; reflexivity. Qed.
+
+Example C01_size_class_nonvacuous :
+  s2b 32768 = 12 /\ b2s 12 = 32768 /\ s2b 32767 = 12 /\ s2b 16385 = 12 /\ s2b 16384 = 11 /\ s2b 65 = 4 /\ s2b 64 = 3 /\ s2b 1 = 0.
+Proof. vm_compute. repeat split; reflexivity. Qed.
